@@ -39,7 +39,7 @@ PROPS = {
         'repotests': True,
         'mc_quick': ['MC_quick.cfg'], 'mc_thorough': MC_THOROUGH,
         'title': 'Cache transparency',
-        'units': [('swap', 1200, 15000), ('subcache', 600, 8000), ('general', 1500, 30000), ('nested', 1500, 30000), ('selfnest', 400, 6000), ('rebuild', 500, 10000), ('foreign', 500, 8000),
+        'units': [('swap', 1200, 15000), ('subcache', 600, 8000), ('general', 1500, 30000), ('nested', 1500, 30000), ('selfnest', 400, 6000), ('keys', 500, 6000), ('rebuild', 500, 10000), ('foreign', 500, 8000),
                   ('clean', 300, 4000), ('regress', 0, 0)],
         # a stale answer anywhere (C01: "always shows up in the result exactly as from scratch")
         'owned': C01_CLAUSES,
